@@ -8,8 +8,9 @@ import Model.Basic
 -/
 namespace DV
 
-/-- one `<avp>` of a dictionary file: (name, code, vendor-id, must contains "M", type name) -/
-abbrev AvpRow := Nat × Nat × Nat × Bool × Nat
+/-- one `<avp>` of a dictionary file: (name, code, vendor-id, must contains "M", type name,
+    number of `<item>` / `<rule>` children) -/
+abbrev AvpRow := Nat × Nat × Nat × Bool × Nat × Nat
 /-- one `<command>`: (code, short, #request rules, #answer rules) -/
 abbrev CmdRow := Nat × Nat × Nat × Nat
 /-- one `<application>`: (id, type, vendor ids, commands, avps) -/
@@ -24,6 +25,8 @@ structure AvpDef where
   vendor : Nat
   must : Bool
   tyName : Nat
+  /-- how many `<item>` / `<rule>` children the definition has (`Data.Enum`, `Data.Rule`) -/
+  items : Nat := 0
   /-- `Data.Type` as set by `updateType` (0 = UnknownType when the type name is not available) -/
   ty : Nat
   /-- id of the application the AVP is linked to (`avp.App`) -/
@@ -66,9 +69,9 @@ def resolveType (available : List (Nat × Nat)) (tyName : Nat) : Option Nat := a
     (after that AVP has been indexed), as `Load` does. -/
 def loadAvps (available : List (Nat × Nat)) (app : Nat) : List AvpRow → Parser → Parser × Bool
   | [], p => (p, true)
-  | (name, code, vendor, must, tyName) :: r, p =>
+  | (name, code, vendor, must, tyName, items) :: r, p =>
     let ty? := resolveType available tyName
-    let d : AvpDef := { name, code, vendor, must, tyName, ty := ty?.getD 0, app }
+    let d : AvpDef := { name, code, vendor, must, tyName, items, ty := ty?.getD 0, app }
     let p := { p with
       avpname := ((app, name, UndefinedVendorID), d) :: ((app, name, vendor), d) :: p.avpname
       avpcode := ((app, code, UndefinedVendorID), d) :: ((app, code, vendor), d) :: p.avpcode }
